@@ -67,6 +67,7 @@ impl SecondaryStorage {
             vacuum_handler: Mutex::new((None, None)),
             txn_mgr: Arc::new(TransactionManager::default()),
             indexes: Mutex::new(InMemoryIndexes::new()),
+            ddl_lock: Mutex::new(()),
         };
 
         info!("applying {} manifest entries", manifest_ops.len());
